@@ -11,6 +11,7 @@ def gen(rng):
     return pc.gen(rng, faults=True)
 
 
+setup = pc.setup
 execute = pc.execute
 encode = pc.encode
 
